@@ -200,7 +200,7 @@ func init() {
 			"family 2: the driver built with -race and the real bytebufferpool, G goroutines x N iterations each over own instances with Gosched/sleep injected at sink writes, outputs compared with sequential references, race reports counted from GORACE logs; " +
 			"family 3: the same against a shadow allocator replacing bytebufferpool (poison on Put, quarantine, poison verified on Get, stale capacity visible); " +
 			"distinct = (history, polluter) and interleaving signatures (goroutine switch sequence between sink writes); non-trivial = every repeated history; interleavings with >= 1 switch",
-		Require: []string{"family1_runs", "race_detector_processes", "shadow_allocator_processes", "shadow_cross_goroutine_handovers", "goroutine_switches_between_sink_writes", "repeated_histories", "shadow_reuses", "histories_compared_across_processes", "polluters_with_failed_operations", "fault_then_verify_rounds", "interleaved_instance_pairs", "interleaved_pairs_sharing_an_option_slice"},
+		Require: []string{"family1_runs", "race_detector_processes", "shadow_allocator_processes", "shadow_cross_goroutine_handovers", "goroutine_switches_between_sink_writes", "repeated_histories", "shadow_reuses", "histories_compared_across_processes", "polluters_with_failed_operations", "fault_then_verify_rounds", "interleaved_instance_pairs", "interleaved_pairs_sharing_an_option_slice", "cold_start_histories", "readers_whose_records_were_edited_in_place"},
 		RequireFn: func(r *Run) []string {
 			if r.M.Maxes["max_instances_in_flight"] < 2 {
 				return []string{"no two instances were ever in flight at the same time"}
